@@ -1,12 +1,516 @@
-//! Family `binops`: C03 C04 — archive operation histories.  (stub)
+//! Family `binops`: C03 C04 — archive operation histories on one `BinArchive`.
+//!
+//! Case line: `<id> <op> <args…>`; the first line of a case is `new LE|BE`.  After every op the
+//! implementation line is `<id> <result> | <canonical state>` (see `state_str`).
+//! Positional ops are lower case (`r_u16 addr`, `w_str addr hex`), reader ops start with `R_`,
+//! writer ops with `W_`.  Reader / writer cursors are kept here (the Rust reader borrows the archive
+//! immutably, the writer mutably) and a fresh `BinArchiveReader::new(&a, pos)` /
+//! `BinArchiveWriter::new(&mut a, pos)` is created around each stream op; `tell()` is read back.
 #![allow(unused)]
 use crate::util::*;
+use mila::{
+    ArchiveError, BinArchive, BinArchiveReader, BinArchiveWriter, EncodedStringReader,
+    EncodedStringsError, Endian,
+};
 
-pub fn gen(_seed: u64, _tier: &str) -> Vec<String> {
-    Vec::new()
+pub struct St {
+    id: String,
+    a: BinArchive,
+    rpos: usize,
+    wpos: usize,
 }
 
-pub fn run_line(_st: &mut super::State, line: &str) -> String {
-    let id = line.split(' ').next().unwrap_or("?");
-    format!("{} unimplemented", id)
+fn cls(e: &ArchiveError) -> &'static str {
+    match e {
+        ArchiveError::OutOfBoundsAddress(..) => "OutOfBounds",
+        ArchiveError::UnalignedValue(..) => "Unaligned",
+        ArchiveError::LabelIndexOutOfBounds(..) => "LabelIndex",
+        ArchiveError::EncodingStringsError(EncodedStringsError::UnterminatedString) => "Unterminated",
+        _ => "Other",
+    }
 }
+
+/// Characters of the executable sub-codec `sjisSub` (Codec.lean).
+fn in_alphabet(c: char) -> bool {
+    let u = c as u32;
+    (u >= 1 && u < 0x80)
+        || (0xFF61..=0xFF9F).contains(&u)
+        || (0x3041..=0x3093).contains(&u)
+        || (0x30A1..=0x30F6).contains(&u)
+}
+
+/// Shift-JIS bytes of a string of the sub-alphabet (mirror of `Sjis.encCp`).
+fn sjis_sub(s: &str) -> Vec<u8> {
+    let mut out = Vec::new();
+    for c in s.chars() {
+        let u = c as u32;
+        if u < 0x80 {
+            out.push(u as u8);
+        } else if (0xFF61..=0xFF9F).contains(&u) {
+            out.push((u - 0xFF61 + 0xA1) as u8);
+        } else if (0x3041..=0x3093).contains(&u) {
+            out.push(0x82);
+            out.push((0x9F + (u - 0x3041)) as u8);
+        } else if (0x30A1..=0x30DF).contains(&u) {
+            out.push(0x83);
+            out.push((0x40 + (u - 0x30A1)) as u8);
+        } else if (0x30E0..=0x30F6).contains(&u) {
+            out.push(0x83);
+            out.push((0x80 + (u - 0x30E0)) as u8);
+        } else {
+            panic!("not in alphabet");
+        }
+    }
+    out
+}
+
+/// A decoded c-string is printed only when every character lies in the sub-alphabet; otherwise
+/// `dirty` (the model's sub-codec then yields a replacement character, and prints `dirty` too).
+fn dec_str(s: &str) -> String {
+    if s.chars().all(in_alphabet) {
+        hexs(s)
+    } else {
+        "dirty".to_string()
+    }
+}
+
+fn opt_str(v: &Option<String>) -> String {
+    match v {
+        None => "~".into(),
+        Some(s) => hexs(s),
+    }
+}
+fn opt_dec(v: &Option<String>) -> String {
+    match v {
+        None => "~".into(),
+        Some(s) => dec_str(s),
+    }
+}
+fn bucket_str(b: &[String]) -> String {
+    if b.is_empty() {
+        "!".into()
+    } else {
+        b.iter().map(|s| hexs(s)).collect::<Vec<_>>().join("/")
+    }
+}
+
+/// Full canonical observable state.
+fn state_str(st: &St) -> String {
+    let a = &st.a;
+    let size = a.size();
+    let data = if size == 0 { "-".to_string() } else { hex(a.read_bytes(0, size).unwrap()) };
+    let mut text = Vec::new();
+    let mut ptr = Vec::new();
+    let mut labels = Vec::new();
+    if size >= 4 {
+        for addr in 0..=(size - 4) {
+            if let Ok(Some(s)) = a.read_string(addr) {
+                text.push(format!("{}:{}", addr, hexs(&s)));
+            }
+            if let Ok(Some(p)) = a.read_pointer(addr) {
+                ptr.push(format!("{}:{}", addr, p));
+            }
+            if let Ok(Some(b)) = a.read_labels(addr) {
+                labels.push(format!("{}:{}", addr, bucket_str(&b)));
+            }
+        }
+    }
+    // labels whose cell check fails (address + 4 > size): only visible through all_labels
+    let mut cur: Option<(usize, Vec<String>)> = None;
+    for (addr, l) in a.all_labels() {
+        if addr + 4 <= size {
+            continue;
+        }
+        match &mut cur {
+            Some((ca, b)) if *ca == addr => b.push(l),
+            _ => {
+                if let Some((ca, b)) = cur.take() {
+                    labels.push(format!("{}:{}", ca, bucket_str(&b)));
+                }
+                cur = Some((addr, vec![l]));
+            }
+        }
+    }
+    if let Some((ca, b)) = cur.take() {
+        labels.push(format!("{}:{}", ca, bucket_str(&b)));
+    }
+    let cstr: Vec<String> = a
+        .verif_cstrings()
+        .iter()
+        .map(|(s, v)| {
+            format!("{}:{}", hexs(s), v.iter().map(|x| x.to_string()).collect::<Vec<_>>().join("/"))
+        })
+        .collect();
+    let j = |v: Vec<String>, sep: &str| if v.is_empty() { "-".to_string() } else { v.join(sep) };
+    format!(
+        "size={} data={} text={} ptr={} labels={} cstr={} r={} w={}",
+        size,
+        data,
+        j(text, ","),
+        j(ptr, ","),
+        j(labels, ";"),
+        j(cstr, ";"),
+        st.rpos,
+        st.wpos
+    )
+}
+
+fn pu(s: &str) -> usize {
+    s.parse::<u64>().unwrap() as usize
+}
+fn pi(s: &str) -> i64 {
+    s.parse::<i64>().unwrap()
+}
+fn popt_str(s: &str) -> Option<String> {
+    if s == "~" {
+        None
+    } else {
+        Some(unhexs(s))
+    }
+}
+fn popt_u(s: &str) -> Option<usize> {
+    if s == "~" {
+        None
+    } else {
+        Some(pu(s))
+    }
+}
+
+type R<T> = Result<Result<T, ArchiveError>, String>;
+
+fn fin<T>(r: R<T>, f: impl FnOnce(T) -> String) -> String {
+    match r {
+        Err(_) => "panic".into(),
+        Ok(Err(e)) => format!("err {}", cls(&e)),
+        Ok(Ok(v)) => {
+            let s = f(v);
+            if s.is_empty() {
+                "ok".into()
+            } else {
+                format!("ok {}", s)
+            }
+        }
+    }
+}
+
+/// Typed positional read as a decimal (signed for i*, bit pattern for f32).
+fn read_ty(a: &BinArchive, ty: &str, addr: usize) -> R<i64> {
+    no_panic(|| match ty {
+        "u8" => a.read_u8(addr).map(|v| v as i64),
+        "u16" => a.read_u16(addr).map(|v| v as i64),
+        "u32" => a.read_u32(addr).map(|v| v as i64),
+        "i8" => a.read_i8(addr).map(|v| v as i64),
+        "i16" => a.read_i16(addr).map(|v| v as i64),
+        "i32" => a.read_i32(addr).map(|v| v as i64),
+        "f32" => a.read_f32(addr).map(|v| v.to_bits() as i64),
+        _ => panic!("ty"),
+    })
+}
+fn write_ty(a: &mut BinArchive, ty: &str, addr: usize, v: i64) -> R<()> {
+    no_panic(|| match ty {
+        "u8" => a.write_u8(addr, v as u8),
+        "u16" => a.write_u16(addr, v as u16),
+        "u32" => a.write_u32(addr, v as u32),
+        "i8" => a.write_i8(addr, v as i8),
+        "i16" => a.write_i16(addr, v as i16),
+        "i32" => a.write_i32(addr, v as i32),
+        "f32" => a.write_f32(addr, f32::from_bits(v as u32)),
+        _ => panic!("ty"),
+    })
+}
+fn rb_ty(a: &BinArchive, ty: &str, addr: usize) -> String {
+    format!("rb={}", fin(read_ty(a, ty, addr), |v| v.to_string()).replace(' ', ":"))
+}
+
+fn exec(st: &mut St, f: &[&str]) -> String {
+    let op = f[1];
+    if let Some(ty) = op.strip_prefix("r_").filter(|t| TYS.contains(t)) {
+        return fin(read_ty(&st.a, ty, pu(f[2])), |v| v.to_string());
+    }
+    if let Some(ty) = op.strip_prefix("w_").filter(|t| TYS.contains(t)) {
+        let addr = pu(f[2]);
+        let r = write_ty(&mut st.a, ty, addr, pi(f[3]));
+        let rb = rb_ty(&st.a, ty, addr);
+        return fin(r, |_| rb);
+    }
+    if let Some(ty) = op.strip_prefix("R_").filter(|t| TYS.contains(t)) {
+        let mut r = BinArchiveReader::new(&st.a, st.rpos);
+        let res = no_panic(|| match ty {
+            "u8" => r.read_u8().map(|v| v as i64),
+            "u16" => r.read_u16().map(|v| v as i64),
+            "u32" => r.read_u32().map(|v| v as i64),
+            "i8" => r.read_i8().map(|v| v as i64),
+            "i16" => r.read_i16().map(|v| v as i64),
+            "i32" => r.read_i32().map(|v| v as i64),
+            "f32" => r.read_f32().map(|v| v.to_bits() as i64),
+            _ => panic!("ty"),
+        });
+        st.rpos = r.tell();
+        return fin(res, |v| v.to_string());
+    }
+    if let Some(ty) = op.strip_prefix("W_").filter(|t| TYS.contains(t)) {
+        let v = pi(f[2]);
+        let old = st.wpos;
+        let mut w = BinArchiveWriter::new(&mut st.a, st.wpos);
+        let res = no_panic(|| match ty {
+            "u8" => w.write_u8(v as u8),
+            "u16" => w.write_u16(v as u16),
+            "u32" => w.write_u32(v as u32),
+            "i8" => w.write_i8(v as i8),
+            "i16" => w.write_i16(v as i16),
+            "i32" => w.write_i32(v as i32),
+            "f32" => w.write_f32(f32::from_bits(v as u32)),
+            _ => panic!("ty"),
+        });
+        st.wpos = w.tell();
+        let rb = rb_ty(&st.a, ty, old);
+        return fin(res, |_| rb);
+    }
+    match op {
+        "alloc_end" => {
+            let n = pu(f[2]);
+            fin(no_panic(|| Ok::<_, ArchiveError>(st.a.allocate_at_end(n))), |_| String::new())
+        }
+        "allocate" => {
+            let (addr, n, ge) = (pu(f[2]), pu(f[3]), f[4] == "1");
+            fin(no_panic(|| st.a.allocate(addr, n, ge)), |_| String::new())
+        }
+        "deallocate" => {
+            let (addr, n, ge) = (pu(f[2]), pu(f[3]), f[4] == "1");
+            fin(no_panic(|| st.a.deallocate(addr, n, ge)), |_| String::new())
+        }
+        "truncate" => {
+            let addr = pu(f[2]);
+            fin(no_panic(|| st.a.truncate(addr)), |_| String::new())
+        }
+        "r_bytes" => {
+            let (addr, n) = (pu(f[2]), pu(f[3]));
+            fin(no_panic(|| st.a.read_bytes(addr, n).map(|b| b.to_vec())), |b| hex(&b))
+        }
+        "w_bytes" => {
+            let addr = pu(f[2]);
+            let v = unhex(f[3]);
+            let r = no_panic(|| st.a.write_bytes(addr, &v));
+            let rb = format!(
+                "rb={}",
+                fin(no_panic(|| st.a.read_bytes(addr, v.len()).map(|b| b.to_vec())), |b| hex(&b)).replace(' ', ":")
+            );
+            fin(r, |_| rb)
+        }
+        "r_str" => fin(no_panic(|| st.a.read_string(pu(f[2]))), |v| opt_str(&v)),
+        "r_ptr" => fin(no_panic(|| st.a.read_pointer(pu(f[2]))), |v| match v {
+            None => "~".into(),
+            Some(p) => p.to_string(),
+        }),
+        "r_labels" => fin(no_panic(|| st.a.read_labels(pu(f[2]))), |v| match v {
+            None => "~".into(),
+            Some(b) => bucket_str(&b),
+        }),
+        "r_cstr" => fin(no_panic(|| st.a.read_c_string(pu(f[2]))), |v| opt_dec(&v)),
+        "w_str" => {
+            let v = popt_str(f[3]);
+            fin(no_panic(|| st.a.write_string(pu(f[2]), v.as_deref())), |_| String::new())
+        }
+        "w_ptr" => fin(no_panic(|| st.a.write_pointer(pu(f[2]), popt_u(f[3]))), |_| String::new()),
+        "w_cstr" => fin(no_panic(|| st.a.write_c_string(pu(f[2]), unhexs(f[3]))), |_| String::new()),
+        "w_label" => {
+            let v = unhexs(f[3]);
+            fin(no_panic(|| st.a.write_label(pu(f[2]), &v)), |_| String::new())
+        }
+        "w_labels" => {
+            let v: Vec<String> = if f[3] == "!" { vec![] } else { f[3].split('/').map(unhexs).collect() };
+            fin(no_panic(|| st.a.write_labels(pu(f[2]), v)), |_| String::new())
+        }
+        "d_str" => fin(no_panic(|| st.a.delete_string(pu(f[2]))), |_| String::new()),
+        "d_ptr" => fin(no_panic(|| st.a.delete_pointer(pu(f[2]))), |_| String::new()),
+        "d_labels" => fin(no_panic(|| st.a.delete_labels(pu(f[2]))), |_| String::new()),
+        "d_label" => fin(no_panic(|| st.a.delete_label(pu(f[2]), pu(f[3]))), |_| String::new()),
+        "find" => {
+            let v = unhexs(f[2]);
+            fin(no_panic(|| Ok::<_, ArchiveError>(st.a.find_label_address(&v))), |v| match v {
+                None => "~".into(),
+                Some(p) => p.to_string(),
+            })
+        }
+        "ptr_dests" => fin(
+            no_panic(|| {
+                let mut v: Vec<usize> = st.a.pointer_destinations().into_iter().collect();
+                v.sort();
+                Ok::<_, ArchiveError>(v)
+            }),
+            |v| if v.is_empty() { "-".into() } else { v.iter().map(|x| x.to_string()).collect::<Vec<_>>().join(",") },
+        ),
+        "get_labels" => fin(no_panic(|| Ok::<_, ArchiveError>(st.a.get_labels())), |v| {
+            if v.is_empty() {
+                "-".into()
+            } else {
+                v.iter().map(|(a, s)| format!("{}:{}", a, hexs(s))).collect::<Vec<_>>().join(",")
+            }
+        }),
+        // ---- reader
+        "R_seek" | "R_skip" | "R_tell" => {
+            let mut r = BinArchiveReader::new(&st.a, st.rpos);
+            let out = match op {
+                "R_seek" => {
+                    r.seek(pu(f[2]));
+                    "ok".to_string()
+                }
+                "R_skip" => {
+                    if st.rpos.checked_add(pu(f[2])).is_none() {
+                        "skipov".to_string() // cursor overflow is outside the statement: not executed
+                    } else {
+                        r.skip(pu(f[2]));
+                        "ok".to_string()
+                    }
+                }
+                _ => format!("ok {}", r.tell()),
+            };
+            st.rpos = r.tell();
+            out
+        }
+        "R_bytes" => {
+            let mut r = BinArchiveReader::new(&st.a, st.rpos);
+            let res = no_panic(|| r.read_bytes(pu(f[2])));
+            st.rpos = r.tell();
+            fin(res, |b| hex(&b))
+        }
+        "R_str" => {
+            let mut r = BinArchiveReader::new(&st.a, st.rpos);
+            let res = no_panic(|| r.read_string());
+            st.rpos = r.tell();
+            fin(res, |v| opt_str(&v))
+        }
+        "R_ptr" => {
+            let mut r = BinArchiveReader::new(&st.a, st.rpos);
+            let res = no_panic(|| r.read_pointer());
+            st.rpos = r.tell();
+            fin(res, |v| match v {
+                None => "~".into(),
+                Some(p) => p.to_string(),
+            })
+        }
+        "R_cstr" => {
+            let mut r = BinArchiveReader::new(&st.a, st.rpos);
+            let res = no_panic(|| r.read_c_string());
+            st.rpos = r.tell();
+            fin(res, |v| opt_dec(&v))
+        }
+        "R_label" => {
+            let mut r = BinArchiveReader::new(&st.a, st.rpos);
+            let res = no_panic(|| r.read_label(pu(f[2])));
+            st.rpos = r.tell();
+            fin(res, |v| opt_str(&v))
+        }
+        "R_labels" => {
+            let mut r = BinArchiveReader::new(&st.a, st.rpos);
+            let res = no_panic(|| r.read_labels());
+            st.rpos = r.tell();
+            fin(res, |v| match v {
+                None => "~".into(),
+                Some(b) => bucket_str(&b),
+            })
+        }
+        "R_sjis" => {
+            let mut r = BinArchiveReader::new(&st.a, st.rpos);
+            let res = no_panic(|| r.read_shift_jis_string().map_err(ArchiveError::from));
+            st.rpos = r.tell();
+            fin(res, |v| dec_str(&v))
+        }
+        // ---- writer
+        "W_seek" | "W_skip" | "W_tell" | "W_size" => {
+            let mut w = BinArchiveWriter::new(&mut st.a, st.wpos);
+            let out = match op {
+                "W_seek" => {
+                    w.seek(pu(f[2]));
+                    "ok".to_string()
+                }
+                "W_skip" => {
+                    if st.wpos.checked_add(pu(f[2])).is_none() {
+                        "skipov".to_string()
+                    } else {
+                        w.skip(pu(f[2]));
+                        "ok".to_string()
+                    }
+                }
+                "W_tell" => format!("ok {}", w.tell()),
+                _ => format!("ok {} {}", w.size(), w.length()),
+            };
+            st.wpos = w.tell();
+            out
+        }
+        "W_bytes" => {
+            let v = unhex(f[2]);
+            let mut w = BinArchiveWriter::new(&mut st.a, st.wpos);
+            let res = no_panic(|| w.write_bytes(&v));
+            st.wpos = w.tell();
+            fin(res, |_| String::new())
+        }
+        "W_str" => {
+            let v = popt_str(f[2]);
+            let mut w = BinArchiveWriter::new(&mut st.a, st.wpos);
+            let res = no_panic(|| w.write_string(v.as_deref()));
+            st.wpos = w.tell();
+            fin(res, |_| String::new())
+        }
+        "W_ptr" => {
+            let mut w = BinArchiveWriter::new(&mut st.a, st.wpos);
+            let res = no_panic(|| w.write_pointer(popt_u(f[2])));
+            st.wpos = w.tell();
+            fin(res, |_| String::new())
+        }
+        "W_cstr" => {
+            let mut w = BinArchiveWriter::new(&mut st.a, st.wpos);
+            let res = no_panic(|| w.write_c_string(unhexs(f[2])));
+            st.wpos = w.tell();
+            fin(res, |_| String::new())
+        }
+        "W_label" => {
+            let v = unhexs(f[2]);
+            let mut w = BinArchiveWriter::new(&mut st.a, st.wpos);
+            let res = no_panic(|| w.write_label(&v));
+            st.wpos = w.tell();
+            fin(res, |_| String::new())
+        }
+        "W_alloc" => {
+            let (n, ge) = (pu(f[2]), f[3] == "1");
+            let mut w = BinArchiveWriter::new(&mut st.a, st.wpos);
+            let res = no_panic(|| w.allocate(n, ge));
+            st.wpos = w.tell();
+            fin(res, |_| String::new())
+        }
+        "W_alloc_end" => {
+            let n = pu(f[2]);
+            let mut w = BinArchiveWriter::new(&mut st.a, st.wpos);
+            let res = no_panic(|| Ok::<_, ArchiveError>(w.allocate_at_end(n)));
+            st.wpos = w.tell();
+            fin(res, |_| String::new())
+        }
+        _ => "badop".to_string(),
+    }
+}
+
+const TYS: [&str; 7] = ["u8", "u16", "u32", "i8", "i16", "i32", "f32"];
+
+pub fn run_line(state: &mut super::State, line: &str) -> String {
+    let f: Vec<&str> = line.split(' ').filter(|s| !s.is_empty()).collect();
+    let id = f[0];
+    if f.len() < 2 {
+        return format!("{} badline", id);
+    }
+    if f[1] == "new" {
+        let e = if f.get(2) == Some(&"BE") { Endian::Big } else { Endian::Little };
+        let st = St { id: id.to_string(), a: BinArchive::new(e), rpos: 0, wpos: 0 };
+        let out = format!("{} ok | {}", id, state_str(&st));
+        state.any = Some(Box::new(st));
+        return out;
+    }
+    let st = match state.any.as_mut().and_then(|b| b.downcast_mut::<St>()) {
+        Some(st) if st.id == id => st,
+        _ => return format!("{} nostate", id),
+    };
+    let res = exec(st, &f);
+    let s = no_panic(|| state_str(st)).unwrap_or_else(|_| "state-panic".into());
+    format!("{} {} | {}", id, res, s)
+}
+
+include!("binops_gen.rs");
